@@ -71,6 +71,10 @@ CHECKS = {
               # mDNS level: hostile TXT maps / raw TXT items, names, hosts, address lists and ports through both entry paths
               dict(engine="mdnssim", test="TestC08Mdns", quick=dict(checks=6000, shards=2, timeout=600),
                    thorough=dict(checks=300000, shards=2, timeout=3000)),
+              # SHIP layer in real time (no bubble): timers armed by the peer / the harness, user actions and transport errors truly
+              # concurrent with the handlers, state changes stretched by a slow application logger; no panic, no deadlock
+              dict(engine="shipsim", test="TestC08Real", shrinktime="10s", quick=dict(checks=40, shards=2, timeout=900),
+                   thorough=dict(checks=1500, shards=4, timeout=4000), env=dict(VERIF_BATCH="32")),
               dict(kind="fuzz", engine="shipsim", test="FuzzShipMessage", tiers=("thorough",), thorough=dict(fuzztime=300)),
               dict(kind="fuzz", engine="mdnssim", test="FuzzTxt", tiers=("thorough",), thorough=dict(fuzztime=180))],
     ),
@@ -258,7 +262,8 @@ CHECKS = {
               "hubs over loopback with a connected core, 8-30 operations (register, unregister, cancel, disconnect, pairing detail, auto "
               "accept, SPINE writes, mDNS appear/disappear, TCP cut, shutdown) most of them issued concurrently from their own goroutines, "
               "then all hubs shut down at the same time; (2) ship level stress: the events of an adversarial script are issued from three "
-              "goroutines at once (deliveries, user actions and writes, virtual time so that handshake timers fire) on two real endpoints; "
+              "goroutines at once (deliveries, user actions and writes, virtual time so that handshake timers fire) on two real endpoints, "
+              "and the real-time run of C08 (timers expiring while handlers run); "
               "(3) websocket write/close races (C12 scenarios); (4) mDNS manager and Avahi provider histories (C17, C19 scenarios). Oracle: "
               "zero data race reports; each report is keyed by the unordered pair of innermost ship-go functions of the two accesses. "
               "non-trivial = >= 2 operations issued concurrently (hub level) / script with >= 4 events (stress); distinct = hash of the script"),
@@ -267,6 +272,8 @@ CHECKS = {
                  thorough=dict(checks=60, shards=6, timeout=6000), env=dict(VERIF_BATCH="6")),
             dict(engine="shipsim", test="TestC20Stress", race=True, quick=dict(checks=4000, shards=3, timeout=900),
                  thorough=dict(checks=150000, shards=6, timeout=4000)),
+            dict(engine="shipsim", test="TestC08Real", race=True, shrinktime="10s", quick=dict(checks=12, shards=2, timeout=900),
+                 thorough=dict(checks=400, shards=4, timeout=4000), env=dict(VERIF_BATCH="32")),
             dict(engine="wsfault", test="TestC12", race=True, quick=dict(checks=600, shards=2, timeout=900),
                  thorough=dict(checks=20000, shards=2, timeout=4000)),
             dict(engine="mdnssim", test="TestC17", race=True, quick=dict(checks=1500, shards=1, timeout=900),
